@@ -253,16 +253,34 @@ impl Family for C10 {
         _ => Op::Complete,
       });
     }
+    let nested = nobs >= 2 && rng.below(4) == 0;
+    if nested {
+      // observer 1 is only ever subscribed from inside observer 0's terminal callback
+      for o in ops.iter_mut() {
+        if *o == Op::Sub(1) {
+          *o = Op::Sub(0);
+        }
+      }
+    }
     Json::obj(vec![
       ("subject", Json::str(*rng.pick(&["subject", "behavior", "replay", "async"]))),
       ("observers", Json::Arr((0..nobs).map(|_| Json::str(*rng.pick(&["direct", "direct", "map", "take1", "take2"]))).collect())),
       ("ops", Json::arr(ops.iter(), op_to_json)),
       ("share_observable", Json::Bool(rng.below(2) == 0)),
+      // observer `who` subscribes observer `whom` from inside its first terminal callback
+      ("nested_subscribe", if nested { Json::Arr(vec![Json::Int(0), Json::Int(1)]) } else { Json::Null }),
     ])
   }
   fn exec(&self, w: &Json, cfg: RunCfg) -> RunOut {
     let kind = w.s("subject");
     let share = w.b("share_observable");
+    let nested: Option<(usize, usize)> = match w.get("nested_subscribe") {
+      Some(Json::Arr(v)) if v.len() == 2 => match (v[0].as_i64(), v[1].as_i64()) {
+        (Some(a), Some(b)) if a >= 0 && b >= 0 && a != b => Some((a as usize, b as usize)),
+        _ => return RunOut::invalid(),
+      },
+      _ => None,
+    };
     if Subj::make(&kind).is_none() {
       return RunOut::invalid();
     }
@@ -281,6 +299,12 @@ impl Family for C10 {
     if ops.len() > 16 {
       return RunOut::invalid();
     }
+    if let Some((a, b)) = nested {
+      // `whom` only ever subscribes from inside `who`'s callback
+      if a >= nobs || b >= nobs || ops.iter().any(|o| *o == Op::Sub(b)) {
+        return RunOut::invalid();
+      }
+    }
     // ---- run
     let recs: Vec<Recorder> = (0..nobs).map(|_| Recorder::new()).collect();
     let counts: Arc<Mutex<Vec<usize>>> = Arc::new(Mutex::new(Vec::new()));
@@ -291,6 +315,28 @@ impl Family for C10 {
       let mut ever = vec![false; recs2.len()];
       let shared_obs = sbj.observable();
       let get_obs = |s: &Subj| if share { shared_obs.clone() } else { s.observable() };
+      let nested_sub: Arc<Mutex<Option<Subscription<'static>>>> = Arc::new(Mutex::new(None));
+      let mut recs2 = recs2;
+      if let Some((a, b)) = nested {
+        let (sbj2, rb, ns, kb) = (sbj.clone(), recs2[b].clone(), nested_sub.clone(), ok2[b].clone());
+        let fired = Arc::new(Mutex::new(false));
+        recs2[a].hook = Some(Arc::new(move |ev: &Ev| {
+          if ev.is_terminal() {
+            let mut f = fired.lock().unwrap();
+            if !*f {
+              *f = true;
+              drop(f);
+              let o = match kb.as_str() {
+                "map" => sbj2.observable().map(|x: Val| x),
+                "take1" => sbj2.observable().take(1),
+                "take2" => sbj2.observable().take(2),
+                _ => sbj2.observable(),
+              };
+              *ns.lock().unwrap() = Some(rb.subscribe(&o));
+            }
+          }
+        }));
+      }
       for op in &ops2 {
         match op {
           Op::Sub(i) => {
@@ -308,6 +354,12 @@ impl Family for C10 {
           Op::Unsub(i) => {
             if let Some(s) = &subs[*i] {
               s.unsubscribe();
+            }
+            if nested.map_or(false, |(_, b)| b == *i) {
+              let s = nested_sub.lock().unwrap().clone();
+              if let Some(s) = s {
+                s.unsubscribe();
+              }
             }
           }
           Op::Next(v) => sbj.next(*v),
@@ -339,8 +391,17 @@ impl Family for C10 {
     let mut live_sizes = Vec::new();
     // expected events per observer as of each step (for the weak cut-off)
     let mut expect_at: Vec<Vec<Vec<Ev>>> = Vec::new();
+    let mut nested_done = false;
     for (n, op) in ops.iter().enumerate() {
       m.step(n, op);
+      if let Some((a, b)) = nested {
+        // the broadcast that delivers a's first terminal is over for everybody else's snapshot,
+        // then b is subscribed (it is not part of that broadcast)
+        if !nested_done && m.expect[a].iter().any(|e| e.is_terminal()) {
+          nested_done = true;
+          m.step(n, &Op::Sub(b));
+        }
+      }
       live_sizes.push(m.live.iter().filter(|x| **x).count());
       expect_at.push(m.expect.clone());
     }
